@@ -119,8 +119,12 @@ def tasks(tier):
                     continue
                 out.append({"kind": "twins", "F": fname, "C": cname, "cE": cE, "cF": cF,
                             "maxlen": 1 if tier == "quick" else 2})
-    # expensive first
-    out.sort(key=lambda t: (t["C"] not in ("hex2", "tet_hex", "hex"), t["kind"] != "norm", t["C"] == "none"))
+    # a few cheap representative tasks first (a violation is replayed on the first task that showed it), then the
+    # expensive ones so that the pool stays balanced
+    def rank(t):
+        cheap = t["C"] in ("tet", "none") and t["F"] in ("tri", "none") and t.get("part", 0) == 0
+        return (not cheap, t["C"] not in ("hex2", "tet_hex", "hex"), t["kind"] != "norm", t["C"] == "none")
+    out.sort(key=rank)
     return out
 
 
